@@ -2,6 +2,7 @@
 //! runtime of generated harness binaries. See /verif/DESIGN.md.
 
 pub mod devs;
+pub mod fmtgrid;
 pub mod harness;
 pub mod inputs;
 pub mod props;
